@@ -67,8 +67,8 @@ def coq_target_ok(target):
         rc, out = sh('make -q %s' % target, cwd=COQ)
     return rc == 0
 
-def harness_bin(cfg):
-    return os.path.join(CACHE, 'target', cfg, 'release', 'sjh')
+def harness_bin(cfg, name='sjh'):
+    return os.path.join(CACHE, 'target', cfg, 'release', name)
 
 def build_harness(cfgs):
     """cargo build the harness for each feature configuration from /repo's working tree."""
@@ -134,11 +134,11 @@ def run_lines(binary, lines, tag, nshard=NCPU, stack_unlimited=False):
         r.extend(o)
     return r
 
-def run_impl(cfg, lines, tag='impl'):
-    return run_lines(harness_bin(cfg), lines, tag + '-' + cfg)
+def run_impl(cfg, lines, tag='impl', name='sjh'):
+    return run_lines(harness_bin(cfg, name), lines, tag + '-' + cfg)
 
-def run_model(lines, tag='model'):
-    return run_lines(os.path.join(VERIF, 'ocaml', 'sjdriver'), lines, tag, stack_unlimited=True)
+def run_model(lines, tag='model', name='sjdriver'):
+    return run_lines(os.path.join(VERIF, 'ocaml', name), lines, tag, stack_unlimited=True)
 
 # ------------------------------------------------------------------ audit
 FORBIDDEN = re.compile(r'\b(Admitted|admit|Axiom|Axioms|Parameter|Parameters|Conjecture|Conjectures|Hypothesis|Hypotheses|Variable|Variables)\b|Unset\s+Guard|bypass_check|type-in-type|impredicative-set|Admit\s+Obligations|Unset\s+Universe\s+Checking|Unset\s+Positivity')
